@@ -8,6 +8,7 @@ from __future__ import annotations
 
 import copy
 import json
+import math
 
 import numpy as np
 
@@ -232,6 +233,9 @@ def judge(chk, expr, lean_reply=None):
         return ("violation", "symbolic-matrix-raises", "compute_unitary(use_symbolic=True) raised " + obs["U_sym_err"],
                 {"program": expr})
     if "U_sym" in obs:
+        chk.branch("symbolic")
+        for t in leaf_kinds(expr, set()):
+            chk.branch("symbolic-leaf-" + t)
         spec_u = oracle_matrix(obs["lean"]) if obs["lean"].get("ops") else np.eye(obs["m"], dtype=complex)
         if obs["U_sym"].shape != spec_u.shape or not np.allclose(obs["U_sym"], spec_u, rtol=1e-7, atol=1e-7):
             return ("violation", "symbolic-matrix-not-product",
@@ -244,6 +248,10 @@ def judge(chk, expr, lean_reply=None):
     model_u = np.array(core.unmat(rep["U"]), dtype=complex)
     ok_u = model_u.shape == obs["U"].shape and np.allclose(obs["U"], model_u, rtol=core.TOL, atol=core.TOL)
     ok_flat = rep["flat"] == obs["flat"]
+    if "U_sym" in obs and ok_u and not np.allclose(obs["U_sym"], model_u, rtol=1e-7, atol=1e-7):
+        # (unreachable while the two comparisons above hold; kept so that the symbolic entries are tied to the model)
+        return ("broken", "model-vs-code", "symbolic matrix evaluated at the current values differs from the model's "
+                "product although the numeric matrix and the direct oracle agree", {"program": expr})
     if ok_u and ok_flat:
         # unitarity on the implementation (leaves are unitary by construction)
         if not np.allclose(obs["U"] @ obs["U"].conj().T, np.eye(obs["m"]), atol=1e-8):
@@ -309,115 +317,479 @@ def shrink(chk, expr, sig):
 
 
 # ------------------------------------------------------------------------------------------------
-# histories: circuits nested by reference keep growing after their parents were evaluated
+# histories over a pool of circuit objects (reference semantics + variable parameters)
+#
+# The history itself is sent to the Lean heap model (`World ℕ GQ`, ops new / leaf / nest / merge / barrier / copy /
+# set / eval); the same history is run with the real API; every evaluation is compared.  Independently of the Lean
+# driver a Python mirror resolves the references and multiplies the embedded leaf matrices with numpy (direct oracle).
+# Cells are named by labels so that every sub-list of a history is again a history (shrinking).
 # ------------------------------------------------------------------------------------------------
-def gen_history(rng, n_circ, n_ops, max_m):
-    ms = sorted((rng.randint(1, max_m) for _ in range(n_circ)), reverse=True)
+TWO_PI = 2 * math.pi
+ANGLES = {"BS": ("theta", "tl", "bl", "tr", "br"), "PS": ("phi",)}
+
+
+def gen_value(rng):
+    # in [0, 2*pi): a variable may be shared by a PS phase (period 2*pi) and a BS theta (period 4*pi); the Parameter
+    # object then wraps into the narrower interval, which is not what this property is about
+    return gens.cs_angle(gens.gen_cs(rng)) % TWO_PI
+
+
+def gen_pool_history(rng, n_ops, max_m, malformed=False):
+    nvar = rng.choice([0, 1, 2, 3])
     ops = []
-    for _ in range(n_ops):
+    cells = {}          # label -> (m, rank)
+    nxt = [0]
+
+    def new_cell(m=None, rank=None):
+        lab = nxt[0]
+        nxt[0] += 1
+        m = rng.randint(1, max_m) if m is None else m
+        rank = rng.randint(0, 3) if rank is None else rank
+        cells[lab] = (m, rank)
+        ops.append({"op": "new", "id": lab, "m": m, "rank": rank})
+
+    # a chain that makes nesting possible from the start, plus random entries
+    top = rng.randint(2, max_m)
+    new_cell(top, 3)
+    new_cell(rng.randint(1, top), rng.randint(0, 2))
+    for _ in range(rng.randint(0, 2)):
+        new_cell()
+    bad_at = rng.randrange(n_ops) if malformed else -1
+    for step in range(n_ops):
         r = rng.random()
-        i = rng.randrange(n_circ)
-        if r < 0.30:
-            ops.append({"op": "eval", "i": i})
-            continue
-        if r < 0.36:
-            ops.append({"op": "copy", "i": i})      # the copy becomes a new pool entry (never mutated afterwards)
-            continue
-        cands = [j for j in range(i + 1, n_circ) if ms[j] <= ms[i]]
-        if r < 0.70 or not cands:
-            leaf = gens.gen_leaf(rng, ms[i], kinds=("BS", "PS", "PERM", "U", "UH"))
-            ops.append({"op": "leaf", "i": i, "off": rng.randint(0, ms[i] - gens.leaf_width(leaf)), "leaf": leaf})
+        i = rng.choice(list(cells))
+        m_i, rank_i = cells[i]
+        h = rng.randrange(4)
+        if r < 0.22:
+            ops.append({"op": "eval", "i": i, "h": h, "sym": (rng.choice([0, 1, 2]) if m_i <= 4 else 0)})
+        elif r < 0.28:
+            lab = nxt[0]
+            nxt[0] += 1
+            cells[lab] = cells[i]
+            ops.append({"op": "copy", "i": i, "id": lab, "h": h})
+        elif r < 0.32:
+            new_cell()
+        elif r < 0.42 and nvar:
+            vs = rng.sample(range(nvar), rng.randint(1, nvar))
+            ops.append({"op": "set", "vals": {str(v): gen_value(rng) for v in vs}})
+        elif r < 0.47:
+            ops.append({"op": "barrier", "i": i, "h": h})
         else:
-            j = rng.choice(cands)
-            ops.append({"op": rng.choice(["nest", "nest", "merge"]), "i": i, "j": j, "off": rng.randint(0, ms[i] - ms[j])})
-    ops += [{"op": "eval", "i": i} for i in range(n_circ)]
-    return {"ms": ms, "ops": ops}
+            bad = step == bad_at
+            cands = [j for j in cells if cells[j][1] < rank_i and (cells[j][0] <= m_i or bad)]
+            if cands and rng.random() < 0.5:
+                j = rng.choice(cands)
+                w = cells[j][0]
+                off = (max(0, m_i - w) + rng.randint(1, 2)) if bad else rng.randint(0, m_i - w)
+                ops.append({"op": "sub", "i": i, "j": j, "off": off, "h": h, "hj": rng.randrange(4),
+                            "how": rng.choice(["nest", "nest", "nest0", "merge", "ifd", "fd", "imm", "mm"])})
+            else:
+                leaf = gens.gen_leaf(rng, m_i)
+                if leaf["t"] in ANGLES and nvar and rng.random() < 0.6:
+                    names = ANGLES[leaf["t"]]
+                    leaf["bind"] = {a: rng.randrange(nvar) for a in rng.sample(names, rng.randint(1, len(names)))}
+                w = gens.leaf_width(leaf)
+                off = (m_i - w + rng.randint(1, 2)) if bad else rng.randint(0, m_i - w)
+                ops.append({"op": "leaf", "i": i, "off": off, "leaf": leaf, "h": h,
+                            "how": rng.choice(["int", "int", "tuple", "list", "ifd", "fd", "imm", "mm"])})
+    if malformed and rng.random() < 0.3:
+        ops.insert(rng.randrange(len(ops)), {"op": "new", "id": nxt[0], "m": 0, "rank": 1})
+    ops += [{"op": "eval", "i": i, "h": 0, "sym": 0} for i in cells]
+    return {"vars": [gen_value(rng) for _ in range(nvar)], "ops": ops}
 
 
-def run_history(chk, hist, count=True):
-    """-> failure tuple or None.  Mirror: pool[i] = list of (off, ('leaf', json) | ('ref', j) | ('tree', snapshot))."""
+def convert_old_history(hist):
+    """replay files of the earlier format {"ms": [...], "ops": [...]} (references go to higher indices)"""
+    n = len(hist["ms"])
+    ops = [{"op": "new", "id": k, "m": m, "rank": n - k} for k, m in enumerate(hist["ms"])]
+    nxt = n
+    for op in hist["ops"]:
+        k = op["op"]
+        if k == "leaf":
+            ops.append({"op": "leaf", "i": op["i"], "off": op["off"], "leaf": op["leaf"], "h": 0, "how": "int"})
+        elif k in ("nest", "merge"):
+            ops.append({"op": "sub", "i": op["i"], "j": op["j"], "off": op["off"], "h": 0, "hj": 0, "how": k})
+        elif k == "copy":
+            ops.append({"op": "copy", "i": op["i"], "id": nxt, "h": 0})
+            nxt += 1
+        elif k == "eval":
+            ops.append({"op": "eval", "i": op["i"], "h": 0, "sym": 0})
+    return {"vars": [], "ops": ops}
+
+
+_FRESH = {}
+
+
+def bound_leaf(spec, vals, params=None):
+    """the leaf of a spec: angles listed in spec['bind'] are the Parameter objects `params` (real circuit) or, when
+    `params` is None, the numbers `vals` (a fresh leaf under an environment: the leaf's own matrix, cf. C14)"""
+    from perceval.components import BS, PS
+    from perceval.components.unitary_components import BSConvention
+    bind = spec.get("bind")
+    if not bind:
+        return gens.build_leaf(spec)
+
+    def ang(name):
+        if name in bind:
+            return params[bind[name]] if params is not None else vals[bind[name]]
+        return (2 if name == "theta" else 1) * gens.cs_angle(spec[name])
+    if spec["t"] == "PS":
+        return PS(ang("phi"))
+    return BS(theta=ang("theta"), phi_tl=ang("tl"), phi_bl=ang("bl"), phi_tr=ang("tr"), phi_br=ang("br"),
+              convention=BSConvention[spec["conv"]])
+
+
+def fresh_matrix(spec, vals):
+    key = (json.dumps(spec, sort_keys=True), tuple(vals[v] for v in sorted(set(spec.get("bind", {}).values()))))
+    if key not in _FRESH:
+        if len(_FRESH) > 20000:
+            _FRESH.clear()
+        _FRESH[key] = np.array(bound_leaf(spec, vals).compute_unitary(use_symbolic=False), dtype=complex)
+    return _FRESH[key]
+
+
+def node_matrix(node):
+    """direct oracle: ordered numpy product of the embedded leaf matrices of a resolved tree"""
+    if node[0] == "L":
+        return node[1]
+    m = node[1]
+    u = np.eye(m, dtype=complex)
+    for off, sub in node[2]:
+        su = node_matrix(sub)
+        k = su.shape[0]
+        e = np.eye(m, dtype=complex)
+        e[off:off + k, off:off + k] = su
+        u = e @ u
+    return u
+
+
+def node_flat(node, base=0):
+    if node[0] == "L":
+        return [[base, node[1].shape[0]]]
+    out = []
+    for off, sub in node[2]:
+        out.extend(node_flat(sub, base + off))
+    return out
+
+
+def node_kinds(node, acc):
+    if node[0] == "L":
+        acc.add(node[2])
+        return acc
+    for _, sub in node[2]:
+        node_kinds(sub, acc)
+    return acc
+
+
+def sym_to_np(sym, subs=None):
+    if subs and hasattr(sym, "subs"):       # a circuit made of one full-width `Unitary` reports its numeric matrix
+        sym = sym.subs(subs)
+    return np.array([[complex(x) for x in row] for row in sym.tolist()], dtype=complex)
+
+
+def run_pool_history(chk, hist, count=True):
+    """-> failure tuple or None"""
     import perceval as pcvl
-    ms = hist["ms"]
-    real = [pcvl.Circuit(m) for m in ms]
-    pool = [[] for _ in ms]
-    sizes = list(ms)
+    uid = run_pool_history.uid = getattr(run_pool_history, "uid", 0) + 1
+    # environments: env 0 = initial values, one more per `set`
+    envs = [list(hist["vars"])]
+    for op in hist["ops"]:
+        if op["op"] == "set":
+            e = list(envs[-1])
+            for v, x in op["vals"].items():
+                if int(v) < len(e):
+                    e[int(v)] = x
+            envs.append(e)
+    params = [pcvl.P(f"h{uid}v{k}") for k in range(len(hist["vars"]))]
+    for p, x in zip(params, hist["vars"]):
+        p.set_value(x)
+    env = 0
+    idx = {}                 # label -> pool index
+    handles = []             # pool index -> python objects sharing one `_components` list
+    pool = []                # mirror: pool index -> [m, [(off, ('leaf', spec, obj) | ('ref', j) | ('tree', node))]]
+    lean_ops = []
+    expect = []              # per lean op: (history step, expected status or 'eval', payload)
+    where = {"pool_history": hist}
 
-    def snap(i):
-        ops = []
-        for off, (k, x) in pool[i]:
-            c = x if k in ("leaf", "tree") else snap(x)
-            ops.append({"add": off, "merge": False, "c": c})
-        return {"circ": sizes[i], "ops": ops}
+    def leaf_node(spec, obj, vals):
+        if spec.get("bind"):
+            return ("L", fresh_matrix(spec, vals), spec["t"])
+        return ("L", np.array(obj.compute_unitary(use_symbolic=False), dtype=complex), spec["t"])
 
-    evaluated_parents = set()
+    def resolve(i, vals):
+        m, items = pool[i]
+        subs = []
+        for off, it in items:
+            if it[0] == "leaf":
+                subs.append((off, leaf_node(it[1], it[2], vals)))
+            elif it[0] == "ref":
+                subs.append((off, resolve(it[1], vals)))
+            else:
+                subs.append((off, it[1]))
+        return ("C", m, subs)
+
+    def call(step, fn, n_model_ops, admissible):
+        """run one API call; the model ops it corresponds to are the last `n_model_ops` of lean_ops"""
+        try:
+            res = fn()
+            status = "ok"
+        except AssertionError:
+            res, status = None, "rej"
+        if status == "ok" and not admissible:
+            return res, ("violation", "accepts-inadmissible-program",
+                         f"operation #{step} of the history was accepted although its range does not fit", where)
+        if status == "rej" and admissible:
+            return res, ("violation", "rejects-admissible-program",
+                         f"operation #{step} of the history raised AssertionError although its range is admissible", where)
+        for k in range(n_model_ops):
+            expect.append((step, "rej" if (status == "rej" and k == n_model_ops - 1) else "ok", None))
+        if status == "rej" and count:
+            chk.branch("hist-rejected")
+        return res, None
+
+    evaluated = set()
     for step, op in enumerate(hist["ops"]):
         k = op["op"]
-        i = op["i"]
-        if k == "leaf":
-            obj = gens.build_leaf(op["leaf"])
-            real[i].add(op["off"], obj)
-            pool[i].append((op["off"], ("leaf", {"leaf": obj.m, "U": gens.leaf_matrix_json(obj)})))
-        elif k == "nest":
-            real[i].add(op["off"], real[op["j"]], merge=False)
-            pool[i].append((op["off"], ("ref", op["j"])))
+        if k == "new":
+            lean_ops.append({"new": op["m"], "rank": op["rank"]})
+            obj, bad = call(step, lambda: pcvl.Circuit(op["m"]), 1, op["m"] > 0)
+            if bad:
+                return bad
+            if obj is not None:
+                idx[op["id"]] = len(pool)
+                pool.append([op["m"], []])
+                handles.append([obj])
+            continue
+        if k == "set":
+            env += 1
+            for v, x in op["vals"].items():
+                if int(v) < len(params):
+                    params[int(v)].set_value(x)
+            lean_ops.append({"set": env})
+            expect.append((step, "ok", None))
             if count:
-                chk.branch("hist-nest-by-reference")
-        elif k == "merge":
-            real[i].add(op["off"], real[op["j"]], merge=True)
-            if pool[op["j"]]:
-                pool[i].extend((op["off"] + o, item) for o, item in pool[op["j"]])
-            else:
-                pool[i].append((op["off"], ("ref", op["j"])))
-            if count:
-                chk.branch("hist-merge")
+                chk.branch("hist-set-value")
+            continue
+        if op["i"] not in idx or (k == "sub" and op["j"] not in idx):
+            continue            # refers to an entry that does not exist in this (shrunk) history
+        i = idx[op["i"]]
+        m_i = pool[i][0]
+        hs = handles[i]
+        me = hs[op["h"] % len(hs)]
+        vals = envs[env]
+        if k == "barrier":
+            lean_ops.append({"barrier": i})
+            _, bad = call(step, me.barrier, 1, True)
+            if bad:
+                return bad
+            pool[i][1].append((0, ("tree", ("L", np.eye(m_i, dtype=complex), "Barrier"))))
         elif k == "copy":
-            real.append(real[i].copy())
-            pool.append([(0, ("tree", snap(i)))] if pool[i] else [])
-            sizes.append(sizes[i])
+            lean_ops.append({"copy": i})
+            obj, bad = call(step, me.copy, 1, True)
+            if bad:
+                return bad
+            idx[op["id"]] = len(pool)
+            pool.append([m_i, [(off, ("tree", sub)) for off, sub in resolve(i, vals)[2]]])
+            handles.append([obj])
+            if count:
+                chk.branch("hist-copy")
+        elif k in ("leaf", "sub"):
+            how = op["how"]
+            off = op["off"]
+            if k == "leaf":
+                spec = op["leaf"]
+                obj = bound_leaf(spec, None, params)
+                w = obj.m
+                if spec.get("bind"):
+                    body = {"leaf": i, "off": off, "k": w,
+                            "Us": [core.mat(fresh_matrix(spec, e).tolist()) for e in envs]}
+                    if count:
+                        chk.branch("hist-bound-leaf")
+                else:
+                    body = {"leaf": i, "off": off, "k": w, "U": gens.leaf_matrix_json(obj)}
+                new_items = [(off, ("leaf", spec, obj))]
+                merge_like = False
+            else:
+                j = idx[op["j"]]
+                hj = handles[j]
+                obj = hj[op["hj"] % len(hj)]
+                w = pool[j][0]
+                merge_like = how not in ("nest", "nest0")
+                body = {("merge" if merge_like else "nest"): i, "j": j, "off": off}
+                if merge_like and pool[j][1]:
+                    new_items = [(off + o, it) for o, it in pool[j][1]]
+                else:
+                    new_items = [(off, ("ref", j))]
+                if count:
+                    chk.branch("hist-merge" if merge_like else "hist-nest-by-reference")
+            admissible = off + w <= m_i
+            n_model = 1
+            if how in ("imm", "mm"):
+                lean_ops.append({"barrier": i})
+                n_model = 2
+            lean_ops.append(body)
+            if how in ("int", "nest0"):
+                fn = lambda: me.add(off, obj)
+            elif how == "nest":
+                fn = lambda: me.add(off, obj, merge=False)
+            elif how == "merge":
+                fn = lambda: me.add(off, obj, merge=True)
+            elif how == "tuple":
+                fn = lambda: me.add(tuple(range(off, off + w)), obj)
+            elif how == "list":
+                fn = lambda: me.add(list(range(off, off + w)), obj)
+            elif how == "ifd":
+                fn = lambda: me.__ifloordiv__((off, obj))
+            elif how == "fd":
+                fn = lambda: me // (off, obj)
+            elif how == "imm":
+                fn = lambda: me.__imatmul__((off, obj))
+            else:
+                fn = lambda: me @ (off, obj)
+            res, bad = call(step, fn, n_model, admissible)
+            if bad:
+                return bad
+            if how in ("imm", "mm"):
+                pool[i][1].append((0, ("tree", ("L", np.eye(m_i, dtype=complex), "Barrier"))))
+            if res is not None:
+                pool[i][1].extend(new_items)
+                if how in ("fd", "mm"):
+                    hs.append(res)       # `//` and `@` return a second handle on the same component list
+                    if count:
+                        chk.branch("hist-shallow-handle")
+                if count and how in ("imm", "mm"):
+                    chk.branch("hist-matmul")
         elif k == "eval":
-            lj = snap(i)
-            u = np.array(real[i].compute_unitary(), dtype=complex)
-            flat = [[r[0], len(r)] for r, _ in real[i]]
-            if count and i in evaluated_parents:
-                chk.branch("hist-reevaluated-after-growth")
-            evaluated_parents.add(i)
-            rep = chk.lean.ask(lj)
-            spec_u = oracle_matrix(lj) if lj["ops"] else np.eye(sizes[i], dtype=complex)
-            spec_flat = oracle_flat(lj)
-            where = {"history": hist, "step": step}
-            if "err" in rep:
-                return ("broken", "model-vs-code", f"model rejects a snapshot the real API built: {rep['err']}", where)
-            model_u = np.array(core.unmat(rep["U"]), dtype=complex)
-            if not np.allclose(u, spec_u, rtol=core.TOL, atol=core.TOL):
-                return ("violation", "matrix-not-product-after-history",
-                        f"after {step} operations compute_unitary() of circuit #{i} differs from the ordered product "
-                        f"of its current parts by {float(np.max(np.abs(u - spec_u))):.3g}", where)
+            node = resolve(i, vals)
+            spec_u = node_matrix(node)
+            spec_flat = node_flat(node)
+            try:
+                u = np.array(me.compute_unitary(), dtype=complex)
+                u2 = np.array(me.compute_unitary(), dtype=complex)
+                flat = [[r[0], len(r)] for r, _ in me]
+            except Exception as e:
+                return ("violation", "evaluation-raises-after-history",
+                        f"after {step} operations compute_unitary()/iteration of pool entry {op['i']} raised "
+                        f"{type(e).__name__}: {str(e)[:120]}", where)
+            if count:
+                if len(hs) > 1:
+                    chk.branch("hist-eval-through-shallow-handle")
+                if i in evaluated and any(it[0] == "ref" for _, it in pool[i][1]):
+                    chk.branch("hist-reevaluated-after-growth")
+            evaluated.add(i)
+            if u.shape != spec_u.shape or not np.allclose(u, spec_u, rtol=core.TOL, atol=core.TOL):
+                d = float(np.max(np.abs(u - spec_u))) if u.shape == spec_u.shape else float("nan")
+                # the property read literally on the object itself: product of the matrices its own leaves report now,
+                # on the ranges its own iteration reports now
+                lit = np.eye(m_i, dtype=complex)
+                for r, c in me:
+                    e = np.eye(m_i, dtype=complex)
+                    e[r[0]:r[0] + len(r), r[0]:r[0] + len(r)] = np.array(c.compute_unitary(use_symbolic=False), dtype=complex)
+                    lit = e @ lit
+                if not np.allclose(u, lit, rtol=core.TOL, atol=core.TOL):
+                    return ("violation", "matrix-not-product-after-history",
+                            f"after {step} operations compute_unitary() of pool entry {op['i']} differs from the ordered "
+                            f"product of its current parts (under the current parameter values) by {d:.3g}", where)
+                if flat != spec_flat:
+                    return ("violation", "iteration-ranges-after-history",
+                            f"after {step} operations pool entry {op['i']} holds parts on {flat}; parts were attached at "
+                            f"{spec_flat} (its matrix differs from the product of the attached parts by {d:.3g})", where)
+                def has_frozen(n):
+                    return any((it[0] == "tree" and (it[1][0] == "C" or it[1][2] != "Barrier"))
+                               or (it[0] == "ref" and has_frozen(it[1])) for _, it in pool[n][1])
+                if env > 0 and has_frozen(i):
+                    return ("broken", "copy-binding-differs-from-model",
+                            f"after {step} operations pool entry {op['i']} (made by copy()) is the product of its own leaves, "
+                            f"but those do not have the values the original had when it was copied (the model freezes a "
+                            f"copy; differs by {d:.3g})", where)
+                return ("violation", "matrix-ignores-parameter-value",
+                        f"after {step} operations compute_unitary() of pool entry {op['i']} is not the ordered product of "
+                        f"the attached parts under the current parameter values (differs by {d:.3g}): a part lost or kept "
+                        f"a binding it should not", where)
+            if not np.allclose(u, u2, rtol=core.TOL, atol=core.TOL):
+                return ("violation", "matrix-changes-on-reevaluation",
+                        f"after {step} operations compute_unitary() of pool entry {op['i']} called twice gives two matrices",
+                        where)
             if flat != spec_flat:
                 return ("violation", "iteration-ranges-after-history",
-                        f"after {step} operations iteration of circuit #{i} reports {flat}, parts are at {spec_flat}", where)
-            if not np.allclose(u, model_u, rtol=core.TOL, atol=core.TOL) or rep["flat"] != flat:
-                return ("broken", "model-vs-code", "Lean model and implementation disagree on a history snapshot "
-                        "but the direct oracle holds", where)
+                        f"after {step} operations iteration of pool entry {op['i']} reports {flat}, parts are at {spec_flat}",
+                        where)
+            if not np.allclose(u @ u.conj().T, np.eye(m_i), atol=1e-8):
+                return ("violation", "not-unitary", f"after {step} operations compute_unitary() is not unitary", where)
+            if op.get("sym"):
+                kinds = node_kinds(node, set())
+                try:
+                    if op["sym"] == 2 and params:
+                        for p in params:
+                            p.reset()
+                        try:
+                            sym = me.compute_unitary(use_symbolic=True)
+                        finally:
+                            for p, x in zip(params, vals):
+                                p.set_value(x)
+                        us = sym_to_np(sym, {p._symbol: x for p, x in zip(params, vals)})
+                        if count:
+                            chk.branch("hist-symbolic-substituted")
+                    else:
+                        us = sym_to_np(me.compute_unitary(use_symbolic=True))
+                except Exception as e:
+                    return ("violation", "symbolic-matrix-raises",
+                            f"compute_unitary(use_symbolic=True) raised {type(e).__name__}: {str(e)[:150]}", where)
+                if count:
+                    chk.branch("symbolic")
+                    for t in kinds:
+                        chk.branch("symbolic-leaf-" + t)
+                if us.shape != spec_u.shape or not np.allclose(us, spec_u, rtol=1e-7, atol=1e-7):
+                    return ("violation", "symbolic-matrix-not-product",
+                            f"after {step} operations the symbolic matrix of pool entry {op['i']} evaluated at the current "
+                            f"values differs from the ordered product of the embedded leaf matrices", where)
+            lean_ops.append({"eval": i})
+            expect.append((step, "eval", (op["i"], u, flat)))
+    # the same history in the Lean heap model
+    rep = chk.lean.ask({"hist": lean_ops, "envs": len(envs)})
+    if "err" in rep:
+        return ("broken", "model-vs-code", f"the heap model rejects the history: {rep['err']}", where)
+    outs = rep["out"]
+    if len(outs) != len(expect):
+        return ("broken", "model-vs-code", "heap model reply out of step", where)
+    for o, (step, want, payload) in zip(outs, expect):
+        if want != "eval":
+            if o != want:
+                return ("broken", "model-vs-code",
+                        f"operation #{step}: the real API {'rejected' if want == 'rej' else 'accepted'} it, the heap model "
+                        f"says {o!r}; the direct oracle agrees with the real API", where)
+            continue
+        lab, u, flat = payload
+        model_u = np.array(core.unmat(o["U"]), dtype=complex)
+        if model_u.shape != u.shape or not np.allclose(u, model_u, rtol=core.TOL, atol=core.TOL) or o["flat"] != flat:
+            return ("broken", "model-vs-code",
+                    f"after {step} operations the heap model and the implementation disagree on pool entry {lab} "
+                    f"but the direct oracle (resolved references, numpy product) agrees with the implementation", where)
     return None
 
 
 def handle_history(chk, hist):
-    res = run_history(chk, hist)
-    n_nest = sum(1 for o in hist["ops"] if o["op"] == "nest")
+    if "ms" in hist:
+        hist = convert_old_history(hist)
+    res = run_pool_history(chk, hist)
+    n_ref = sum(1 for o in hist["ops"] if o["op"] == "sub")
     chk.count("history_len", len(hist["ops"]) // 5 * 5)
-    chk.case(("H", tuple(hist["ms"]), tuple((o["op"], o["i"], o.get("j"), o.get("off")) for o in hist["ops"])),
-             nontrivial=n_nest > 0, sample={"history": {"ms": hist["ms"], "ops": [(o["op"], o["i"], o.get("j")) for o in hist["ops"]][:10]}})
+    chk.count("history_vars", len(hist["vars"]))
+    chk.case(("H", tuple((o["op"], o.get("i"), o.get("j"), o.get("off"), o.get("how")) for o in hist["ops"])),
+             nontrivial=n_ref > 0,
+             sample={"pool_history": {"vars": len(hist["vars"]),
+                                      "ops": [(o["op"], o.get("i"), o.get("j"), o.get("how")) for o in hist["ops"]][:12]}})
     if res is None:
         return
     kind, sig, what, replay = res
     ops = list(hist["ops"])
-    budget = 120
+    budget = 150
     i = 0
-    while i < len(ops) and budget > 0:      # greedy shrinking: every sub-history is a legal history
-        cand = {"ms": hist["ms"], "ops": ops[:i] + ops[i + 1:]}
+    while i < len(ops) and budget > 0:      # greedy shrinking: every sub-list of a history is a history
+        cand = {"vars": hist["vars"], "ops": ops[:i] + ops[i + 1:]}
         budget -= 1
         try:
-            r = run_history(chk, cand, count=False)
+            r = run_pool_history(chk, cand, count=False)
         except Exception:
             r = None
         if r is not None and r[1] == sig:
@@ -476,8 +848,10 @@ def run_param_program(chk, expr, count=True):
             for k, par in ps.items():
                 par.set_value((2 if k == "theta" else 1) * gens.cs_angle(alt[k]))
         setters.append((spec, setter))
+        all_params.extend(ps.values())
         return obj
 
+    all_params = []
     _LEAF_BUILDER[0] = builder
     try:
         # leaf matrices requested at build time would need values: give every variable its first value as soon as
@@ -513,6 +887,26 @@ def run_param_program(chk, expr, count=True):
         if "err" in rep or not np.allclose(u, np.array(core.unmat(rep["U"]), dtype=complex), rtol=core.TOL, atol=core.TOL):
             return ("broken", "model-vs-code", "Lean model and implementation disagree on a parametrised circuit but the "
                     "direct oracle holds", {"param_program": expr, "round": rnd})
+        if rnd == 1 and all_params and expr["circ"] <= 4:
+            # the symbolic path with the variables left symbolic, values substituted afterwards (base change along
+            # evaluation: theorem unitaryOf_map)
+            values = {p._symbol: float(p) for p in all_params}
+            for p in all_params:
+                p.reset()
+            try:
+                us = sym_to_np(c.compute_unitary(use_symbolic=True), values)
+            except Exception as e:
+                return ("violation", "symbolic-matrix-raises", f"compute_unitary(use_symbolic=True) with undefined "
+                        f"variables raised {type(e).__name__}: {str(e)[:120]}", {"param_program": expr, "round": rnd})
+            finally:
+                for p in all_params:
+                    p.set_value(values[p._symbol])
+            if count:
+                chk.branch("param-symbolic-substituted")
+            if us.shape != spec_u.shape or not np.allclose(us, spec_u, rtol=1e-7, atol=1e-7):
+                return ("violation", "symbolic-matrix-not-product",
+                        "the symbolic matrix in the variable parameters, with the values substituted, differs from the "
+                        "ordered product of the leaf matrices at those values", {"param_program": expr, "round": rnd})
     return None
 
 
@@ -541,14 +935,20 @@ def run(chk: core.Check):
                 "barrier, copy, leaf-started circuits, nested sub-circuits; 10% with one inadmissible range); "
                 "distinct = distinct (sizes, offsets, operations, nesting) signatures; non-trivial = contains a "
                 "nested sub-circuit attached at a non-zero offset somewhere; every circuit is evaluated three times; "
-                "plus histories over a pool of circuits nested by reference/merged/copied which keep growing and are "
-                "re-evaluated in between (non-trivial = at least one nest by reference); a share of small circuits is also "
-                "evaluated symbolically (what .U reports); plus circuits whose BS/PS leaves are bound to variable parameters "
-                "that receive values, and then other values, after assembly")
+                "plus histories over a pool of circuit objects (new / add leaf, possibly bound to shared variable parameters / "
+                "nest by reference / merge through add, //=, //, @=, @ / barrier / copy() / set_value / evaluation through any "
+                "handle; 10% with an inadmissible range) sent as histories to the Lean heap model and run with the real API, "
+                "every evaluation compared (non-trivial = at least one sub-circuit added); small circuits are also evaluated "
+                "symbolically (quick: a share, thorough: all circuits of at most 4 modes), with values and with the variables "
+                "left symbolic and substituted afterwards; plus construction programs whose BS/PS leaves are bound to variable "
+                "parameters that receive values, and then other values, after assembly")
     chk.assumptions = ["leaf matrices are taken from each leaf's own compute_unitary() (their correctness is C14)"]
     chk.required_branches = ["merge", "nest", "floordiv", "matmul", "barrier", "copy", "lead-leaf", "rejected",
-                             "hist-nest-by-reference", "hist-merge", "hist-reevaluated-after-growth",
-                             "symbolic", "param-value-changed-after-assembly", "param-matmul"]
+                             "hist-nest-by-reference", "hist-merge", "hist-reevaluated-after-growth", "hist-copy",
+                             "hist-set-value", "hist-bound-leaf", "hist-shallow-handle", "hist-matmul",
+                             "hist-eval-through-shallow-handle", "hist-symbolic-substituted", "hist-rejected",
+                             "symbolic", "param-value-changed-after-assembly", "param-matmul", "param-symbolic-substituted"] + \
+                            ["symbolic-leaf-" + t for t in ("BS", "PS", "PERM", "U", "UH", "Barrier")]
     chk.lean = core.LeanDriver("C01")
     rng = chk.rng
     n = chk.pick(500, 8000)
@@ -562,14 +962,14 @@ def run(chk: core.Check):
     for i in range(n):
         m = rng.randint(1, max_m)
         expr = gen_circ(rng, m, rng.randint(0, max_depth), rng.randint(1, max_ops), malformed=(rng.random() < 0.1))
-        if m <= 4 and rng.random() < chk.pick(0.35, 0.1):
+        if m <= 4 and rng.random() < chk.pick(0.35, 1.0):
             expr["symbolic"] = True
-            chk.branch("symbolic")
         batch.append(expr)
     for expr in batch:
         handle(chk, expr)
-    for _ in range(chk.pick(120, 1500)):
-        handle_history(chk, gen_history(rng, rng.randint(2, 4), rng.randint(6, chk.pick(16, 30)), chk.pick(5, 7)))
+    for _ in range(chk.pick(150, 2000)):
+        handle_history(chk, gen_pool_history(rng, rng.randint(6, chk.pick(18, 36)), chk.pick(5, 7),
+                                             malformed=(rng.random() < 0.1)))
     for _ in range(chk.pick(150, 1500)):
         m = rng.randint(2, 5)
         e = gen_circ(rng, m, rng.randint(0, 2), rng.randint(2, 8))
@@ -595,6 +995,20 @@ def count_ops(chk, e):
             chk.branch(k)
         if "c" in op:
             count_ops(chk, op["c"])
+
+
+def leaf_kinds(e, acc):
+    if "leaf" in e:
+        acc.add(e["leaf"]["t"])
+        return acc
+    if e.get("lead") is not None:
+        acc.add(e["lead"]["t"])
+    for op in e["ops"]:
+        if "c" in op:
+            leaf_kinds(op["c"], acc)
+        elif op["op"] == "barrier":
+            acc.add("Barrier")
+    return acc
 
 
 def handle(chk, expr):
@@ -626,8 +1040,9 @@ def replay(chk, data):
     if "param_program" in data["replay"]:
         handle_param_program(chk, data["replay"]["param_program"])
         return
-    if "history" in data["replay"]:
-        handle_history(chk, data["replay"]["history"])
-        return
+    for key in ("pool_history", "history"):
+        if key in data["replay"]:
+            handle_history(chk, data["replay"][key])
+            return
     expr = data["replay"]["program"]
     handle(chk, expr)
